@@ -104,6 +104,20 @@ let handle = function
      (match sqrt_loop (nat_of_int (n + 40)) (nat_of_int (2 * n + 8)) (nat_of_int (8 * n + 32)) (Big (z_of_int 1, x)) seed with
       | SV (s, r) -> string_of_num s ^ " " ^ string_of_num r
       | SFuel -> "FUEL" | SDivZero -> "EXC")
+  | [("ratio_round" | "ratio_trunc" | "ratio_floor" | "ratio_ceiling") as fn; n; d] ->
+     let x = num_of n and y = num_of d in
+     let l = function Fix _ -> 1 | Big (_, d) -> List.length d in
+     let k = l x + l y in
+     let qf = nat_of_int (2 * k + 8) and mf = nat_of_int (4 * k + 32) in
+     let r = (match fn with
+              | "ratio_round" -> ratio_round qf mf x y | "ratio_trunc" -> ratio_trunc qf mf x y
+              | "ratio_floor" -> ratio_floor qf mf x y | _ -> ratio_ceiling qf mf x y) in
+     (match r with NV v -> string_of_num v | NDivZero -> "EXC" | NFuel -> "FUEL")
+  | ["ratio_sub"; na; da; nb; db] ->
+     let na = num_of na and da = num_of da and nb = num_of nb and db = num_of db in
+     let l = function Fix _ -> 1 | Big (_, d) -> List.length d in
+     let k = l na + l da + l nb + l db in
+     string_of_rres (ratio_sub (nat_of_int (70 * k + 40)) (nat_of_int (2 * k + 8)) (nat_of_int (4 * k + 32)) na da nb db)
   | ["ratio_normalize"; n; d] ->
      let x = num_of n and y = num_of d in
      let l = function Fix _ -> 1 | Big (_, d) -> List.length d in
@@ -120,6 +134,10 @@ let handle = function
       | "ratio_div" -> string_of_rres (ratio_div fuel qf mf na da nb db)
       | _ -> (match ratio_compare mf na da nb db with
               | Some Z0 -> "0" | Some (Zpos _) -> "1" | Some (Zneg _) -> "-1" | None -> "FUEL"))
+  | ["vm_mul"; a; b] ->
+     let x = num_of a and y = num_of b in
+     let l = function Fix _ -> 1 | Big (_, d) -> List.length d in
+     (match vm_mul (nat_of_int (2 * (l x + l y) + 16)) x y with Some r -> string_of_num r | None -> "FUEL")
   | ["vm_add"; a; b] -> string_of_num (vm_add (num_of a) (num_of b))
   | ["vm_sub"; a; b] -> string_of_num (vm_sub (num_of a) (num_of b))
   | f -> "ERR unknown request " ^ String.concat " " f
